@@ -16,5 +16,8 @@ theorem tie_refpoint_reference (A : Mat m n α) (o : Vec n Obj) (w : Vec n α) :
   funext j
   simp only [Gen.refpoint_reference, Np.where, Np.equal, Np.max, Np.min, Bc.zw, Red.red, Truthy.t, Agg.referencePoint,
     Agg.colMax, Agg.colMin, id, sgn_eq_one, decide_eq_true_eq]
-  by_cases h : o j = .max <;> simp [h, Obj.sgn]
+  first
+    | done
+    | rfl
+    | (by_cases h : o j = .max <;> simp [h, Obj.sgn])
 end Skc.Tie
